@@ -348,6 +348,11 @@ def fit_rules(run, db):
               'and removing tilt twice removes something the second time' % (basis, ast.unparse(rhs)), f.loc(calls[0]))
     rets = [n for n in walk_no_nested(f.node) if isinstance(n, ast.Return)]
     asg = {ast.unparse(n.targets[0]): n.value for n in walk_no_nested(f.node) if isinstance(n, ast.Assign)}
+    # the coefficient vector is the local the solve is bound to, whatever it is called
+    cos_ = [ast.unparse(n.targets[0]) for n in walk_no_nested(f.node) if isinstance(n, ast.Assign) and n.value is calls[0] and isinstance(n.targets[0], ast.Name)]
+    if len(cos_) != 1:
+        raise AnalysisError('fit_plane: the result of lstsq is not bound to one local')
+    CO = cos_[0]
     expr = rets[0].value if rets else None
     if isinstance(expr, ast.Name) and expr.id in asg:
         expr = asg[expr.id]
@@ -368,25 +373,35 @@ def fit_rules(run, db):
             okt = False
             break
         a, b = ast.unparse(t.left).replace(' ', ''), ast.unparse(t.right).replace(' ', '')
-        ca, other = (a, b) if a.startswith('coefs[') else (b, a)
-        if not ca.startswith('coefs[') or other not in basis or ca != 'coefs[%d]' % basis.index(other):
+        ca, other = (a, b) if a.startswith(CO + '[') else (b, a)
+        if not ca.startswith(CO + '[') or other not in basis or ca != '%s[%d]' % (CO, basis.index(other)):
             okt = False
             break
         used.append(other)
     run.check(okt and len(set(used)) == len(used), 'C12.fit', f.qual, 'removed term', 'the returned plane is sum_i coefs[i] * basis[i] over fitted basis terms, each with its own coefficient',
               'fit_plane returns `%s`, which is not a combination coefs[i]*basis[i] of the fitted basis %s' % (ast.unparse(expr) if expr is not None else '?', basis), f.loc())
+    from ..core.pattern import match_all
     fs = db.func(I + 'fit_sphere')
-    src = ast.unparse(fs.node).replace(' ', '')
-    oks = 'np.linalg.lstsq(np.stack([focus.flatten(),np.ones(focus.shape)]).T,z[pts].flatten(),rcond=None)[0]' in src and 'sphere=focus*coefs[0]' in src and 'pts=np.isfinite(z)' in src \
-        and 'focus=rho**2' in src
-    run.check(oks, 'C12.fit', fs.qual, 'power fit', 'power is fitted to the valid data with basis [rho^2, 1]; the removed term is coefs[0] * rho^2 over the valid samples', 'fit_sphere fit / removed term changed', fs.loc())
+    bs = match_all(fs.node, ['V_pts = np.isfinite(z)',
+                             'V_focus = V_rho ** 2',
+                             'V_c = np.linalg.lstsq(np.stack([V_focus.flatten(), np.ones(V_focus.shape)]).T, z[V_pts].flatten(), rcond=None)[0]',
+                             'V_sphere = V_focus * V_c[0]',
+                             'return V_pts, V_sphere'])
+    if bs is None:
+        bs = match_all(fs.node, ['V_pts = np.isfinite(z)',
+                                 'V_focus = V_rho ** 2',
+                                 'V_c = np.linalg.lstsq(np.stack([V_focus.flatten(), np.ones(V_focus.shape)]).T, z[V_pts].flatten(), rcond=None)[0]',
+                                 'V_sphere = V_c[0] * V_focus',
+                                 'return V_pts, V_sphere'])
+    run.check(bs is not None, 'C12.fit', fs.qual, 'power fit', 'power is fitted to the valid data with basis [rho^2, 1]; the removed term is coefs[0] * rho^2 over the valid samples', 'fit_sphere fit / removed term changed', fs.loc())
     fr = db.func(I + 'Interferogram.remove_tiptilt')
-    src = [norm_stmt(st).replace(' ', '') for st in fr.node.body if not (isinstance(st, ast.Expr) and isinstance(st.value, ast.Constant))]
-    run.check(src[:2] == ['plane=fit_plane(self.x,self.y,self.data)', 'self.data-=plane'], 'C12.fit', fr.qual, 'tilt removal', 'the plane fitted to (x, y, data) is subtracted from the data', 'remove_tiptilt wiring changed: %s' % src[:2], fr.loc())
+    bt = match_all(fr.node, ['V_p = fit_plane(self.x, self.y, self.data)', 'self.data -= V_p'], ordered=True) or match_all(fr.node, ['self.data -= fit_plane(self.x, self.y, self.data)'])
+    run.check(bt is not None, 'C12.fit', fr.qual, 'tilt removal', 'the plane fitted to (x, y, data) is subtracted from the data',
+              'remove_tiptilt wiring changed: %s' % [norm_stmt(st) for st in fr.node.body[1:3]], fr.loc())
     fp = db.func(I + 'Interferogram.remove_power')
-    src = [norm_stmt(st).replace(' ', '') for st in fp.node.body if not (isinstance(st, ast.Expr) and isinstance(st.value, ast.Constant))]
-    run.check(src[:2] == ['(mask,sphere)=fit_sphere(self.data)', 'self.data[mask]-=sphere'] or src[:2] == ['mask,sphere=fit_sphere(self.data)', 'self.data[mask]-=sphere'], 'C12.fit', fp.qual, 'power removal',
-              'the sphere fitted to the valid data is subtracted on the valid samples', 'remove_power wiring changed: %s' % src[:2], fp.loc())
+    bp = match_all(fp.node, ['V_m, V_s = fit_sphere(self.data)', 'self.data[V_m] -= V_s'], ordered=True)
+    run.check(bp is not None, 'C12.fit', fp.qual, 'power removal',
+              'the sphere fitted to the valid data is subtracted on the valid samples', 'remove_power wiring changed: %s' % [norm_stmt(st) for st in fp.node.body[1:3]], fp.loc())
 
 
 def check(run, db, tier):
